@@ -289,7 +289,8 @@ class DenseOutput(object):
 
     def remove_interpolant(self, idx):
         out = self.t_eval.pop(idx), self.y_interpolants.pop(idx)
-        self.__t_eval_arr = D.ar_numpy.stack(self.t_eval)
+        # rebuilt on the next array query (there may be no piece left to stack)
+        self.__t_eval_arr_stale = True
         return out
 
     def __len__(self):
@@ -1071,6 +1072,10 @@ class OdeSystem(object):
                                     self.__events.append(ev_state)
 
                         if end_int:
+                            # the step is rolled back: its dense-output pieces go with it before the
+                            # system is re-integrated up to the event
+                            for _ in range(len(self.__sol) - __pre_length):
+                                self.__sol.remove_interpolant(-1 if dTime >= 0 else 0)
                             self.integrate(roots[-1])
                             self.__int_status = 2
                         else:
